@@ -951,7 +951,27 @@ def _clamp_min(eng, b, func, out):
                 eng.assume(T.ge(c, m0), f"generic-case cut: clamp_min not triggered in {cut}")
                 eng.cuts.append((cut, "clamp_min", T.show(c, 60)))
         return x
+    if _floor_cut(eng, x, mn):
+        return x
     return u_max(x, mn)
+
+
+def _floor_cut(eng, x, mn):
+    """numerical floors (`evals.clamp_min(1e-7)`): with the engine's floor_cut option the floor is assumed not to be hit -
+    the claim is then about operators whose clamped quantities are >= the floor (recorded per path)"""
+    if not getattr(eng, "floor_cut", False) or mn is None:
+        return False
+    mn = as_obj(mn)
+    if mn.size != 1:
+        return False
+    m0 = mn.reshape(-1)[0]
+    if not (T.is_const(m0) and 0 < m0 <= Fraction(1, 10 ** 6)):
+        return False
+    for c in as_obj(x).reshape(-1):
+        if T.is_term(c):
+            eng.assume(T.ge(c, m0), "numerical floor clamp(min=%s) not triggered" % float(m0))
+            eng.cuts.append(("floor", "clamp", T.show(c, 60)))
+    return True
 
 
 @op("clamp_max", "clamp_max_")
@@ -963,7 +983,8 @@ def _clamp_max(eng, b, func, out):
 def _clamp(eng, b, func, out):
     r = eng.sym(b["self"])
     if b.get("min") is not None:
-        r = u_max(r, eng.sym(b["min"]))
+        if not _floor_cut(eng, r, eng.sym(b["min"])):
+            r = u_max(r, eng.sym(b["min"]))
     if b.get("max") is not None:
         r = u_min(r, eng.sym(b["max"]))
     return r
